@@ -270,6 +270,65 @@ func packageVarsUsed(repo, dir, fn string) ([]string, error) {
 	return out, nil
 }
 
+// assignsIn lists, in source order, the assignments ("lhs = rhs", "lhs op= rhs", "x++") and the
+// deferred/plain call statements of a function body (nested blocks included, function literals too).
+func assignsIn(fd *ast.FuncDecl, lhsPrefix string) []string {
+	var out []string
+	if fd == nil || fd.Body == nil {
+		return out
+	}
+	ast.Inspect(fd.Body, func(n ast.Node) bool {
+		switch x := n.(type) {
+		case *ast.AssignStmt:
+			for i, l := range x.Lhs {
+				lt := exprText(l)
+				if !strings.HasPrefix(lt, lhsPrefix) {
+					continue
+				}
+				rt := ""
+				if len(x.Rhs) == len(x.Lhs) {
+					rt = exprText(x.Rhs[i])
+				} else if len(x.Rhs) == 1 {
+					rt = exprText(x.Rhs[0])
+				}
+				out = append(out, lt+" "+x.Tok.String()+" "+rt)
+			}
+		case *ast.IncDecStmt:
+			if lt := exprText(x.X); strings.HasPrefix(lt, lhsPrefix) {
+				out = append(out, lt+x.Tok.String())
+			}
+		}
+		return true
+	})
+	return out
+}
+
+func c03StructFields(f *ast.File, name string) []string {
+	var out []string
+	for _, d := range f.Decls {
+		gd, ok := d.(*ast.GenDecl)
+		if !ok || gd.Tok != token.TYPE {
+			continue
+		}
+		for _, sp := range gd.Specs {
+			ts := sp.(*ast.TypeSpec)
+			st, ok := ts.Type.(*ast.StructType)
+			if !ok || ts.Name.Name != name {
+				continue
+			}
+			for _, fl := range st.Fields.List {
+				if len(fl.Names) == 0 {
+					out = append(out, exprText(fl.Type))
+				}
+				for _, n := range fl.Names {
+					out = append(out, n.Name)
+				}
+			}
+		}
+	}
+	return out
+}
+
 func methodsOf(f *ast.File, recv string) []string {
 	var out []string
 	for _, d := range f.Decls {
@@ -510,6 +569,38 @@ func genC03(repo string) (string, error) {
 	fmt.Fprintf(&sb, "/-- does `nextContainer` accept a zero-length series bucket (a container whose series were all\nflushed without field data) instead of failing on it? -/\n")
 	fmt.Fprintf(&sb, "def scannerToleratesEmptyBucket : Bool := %v\n", tolerates)
 
+	// what survives a Merge call inside the merger, and the block writer's bookkeeping
+	fmt.Fprintf(&sb, "\n/-- fields of `struct merger`, and the receiver fields `Merge`/`prepare` assign (state carried from one\nmetric to the next would show here) -/\n")
+	fmt.Fprintf(&sb, "def mergerStructFields : List String := %s\n", LeanStrList(c03StructFields(mg, "merger")))
+	fmt.Fprintf(&sb, "def mergerAssignsInMerge : List String := %s\n", LeanStrList(append(assignsIn(FindFunc(mg, "merger", "Merge"), "m."), assignsIn(prep, "m.")...)))
+	_, sm, err := ParseFile(repo, "tsdb/tblstore/metricsdata/series_merger.go")
+	if err != nil {
+		return "", err
+	}
+	fmt.Fprintf(&sb, "def seriesMergerStructFields : List String := %s\n", LeanStrList(c03StructFields(sm, "seriesMerger")))
+	fmt.Fprintf(&sb, "def seriesMergerAssigns : List String := %s\n", LeanStrList(assignsIn(FindFunc(sm, "seriesMerger", "merge"), "sm.")))
+	_, fl, err := ParseFile(repo, "tsdb/tblstore/metricsdata/flusher.go")
+	if err != nil {
+		return "", err
+	}
+	fmt.Fprintf(&sb, "\n/-- the block writer's bookkeeping: assignments to its own state in `FlushSeries`, `flushField`,\n`flushLevel2SeriesBucket`, `PrepareMetric`, `reset` (source order), and the calls of `CommitMetric` -/\n")
+	fmt.Fprintf(&sb, "def flushSeriesAssigns : List String := %s\n", LeanStrList(assignsIn(FindFunc(fl, "flusher", "FlushSeries"), "w.")))
+	fmt.Fprintf(&sb, "def flushSeriesChecks : List String := %s\n", LeanStrList(allIfConds(FindFunc(fl, "flusher", "FlushSeries"))))
+	fmt.Fprintf(&sb, "def flushSeriesCalls : List String := %s\n", LeanStrList(CallSeq(FindFunc(fl, "flusher", "FlushSeries"))))
+	fmt.Fprintf(&sb, "def flushFieldAssigns : List String := %s\n", LeanStrList(append(assignsIn(FindFunc(fl, "flusher", "flushField"), "w."), assignsIn(FindFunc(fl, "flusher", "flushField"), "fieldDataAt")...)))
+	fmt.Fprintf(&sb, "def flushFieldCalls : List String := %s\n", LeanStrList(CallSeq(FindFunc(fl, "flusher", "flushField"))))
+	fmt.Fprintf(&sb, "def flushBucketAssigns : List String := %s\n", LeanStrList(assignsIn(FindFunc(fl, "flusher", "flushLevel2SeriesBucket"), "posOfLowKeyOffsets")))
+	fmt.Fprintf(&sb, "def flushBucketChecks : List String := %s\n", LeanStrList(allIfConds(FindFunc(fl, "flusher", "flushLevel2SeriesBucket"))))
+	fmt.Fprintf(&sb, "def prepareMetricAssigns : List String := %s\n", LeanStrList(assignsIn(FindFunc(fl, "flusher", "PrepareMetric"), "w.")))
+	fmt.Fprintf(&sb, "def prepareMetricCalls : List String := %s\n", LeanStrList(CallSeq(FindFunc(fl, "flusher", "PrepareMetric"))))
+	fmt.Fprintf(&sb, "def flusherResetAssigns : List String := %s\n", LeanStrList(assignsIn(FindFunc(fl, "flusher", "reset"), "w.")))
+	fmt.Fprintf(&sb, "def flusherResetCalls : List String := %s\n", LeanStrList(CallSeq(FindFunc(fl, "flusher", "reset"))))
+	cmCalls := CallSeq(FindFunc(fl, "flusher", "CommitMetric"))
+	if len(cmCalls) > 3 {
+		cmCalls = cmCalls[:3]
+	}
+	fmt.Fprintf(&sb, "def commitMetricFirstCalls : List String := %s\n", LeanStrList(cmCalls))
+
 	// compaction job structure
 	_, cj, err := ParseFile(repo, "kv/compact_job.go")
 	if err != nil {
@@ -525,6 +616,9 @@ func genC03(repo string) (string, error) {
 		}
 	}
 	fmt.Fprintf(&sb, "def streamWriterRebinds : Bool := %v\n", rebinds)
+	fmt.Fprintf(&sb, "/-- `compactFlusherStreamWriter.Commit`: the key is registered with the table builder BEFORE `afterAdd` may\nfinish the output file; `Prepare`: the builder is (re)opened and the writer re-bound BEFORE the key is prepared -/\n")
+	fmt.Fprintf(&sb, "def streamWriterCommitCalls : List String := %s\n", LeanStrList(CallSeq(FindFunc(cj, "compactFlusherStreamWriter", "Commit"))))
+	fmt.Fprintf(&sb, "def streamWriterPrepareCalls : List String := %s\n", LeanStrList(CallSeq(FindFunc(cj, "compactFlusherStreamWriter", "Prepare"))))
 	fmt.Fprintf(&sb, "def afterAddCheck : String := %s\n", strconv.Quote(findIfCond(FindFunc(cj, "compactFlusher", "afterAdd"), "maxFileSize")))
 	fmt.Fprintf(&sb, "def doMergeCalls : List String := %s\n", LeanStrList(CallSeq(FindFunc(cj, "compactJob", "doMerge"))))
 	fmt.Fprintf(&sb, "def installCalls : List String := %s\n", LeanStrList(CallSeq(FindFunc(cj, "compactJob", "installCompactionResults"))))
